@@ -197,3 +197,162 @@ pub fn unhex(s: &str) -> Option<Vec<u8>> {
         .map(|i| u8::from_str_radix(s.get(i..i + 2)?, 16).ok())
         .collect()
 }
+
+// ---------------------------------------------------------------------------------------------
+// Minimal parser (for reports passed between supervised worker processes and for replay files).
+
+pub fn parse(text: &str) -> Result<J, String> {
+    let b = text.as_bytes();
+    let mut pos = 0;
+    let v = parse_value(b, &mut pos)?;
+    skip_ws(b, &mut pos);
+    if pos != b.len() {
+        return Err(format!("trailing data at {pos}"));
+    }
+    Ok(v)
+}
+
+fn skip_ws(b: &[u8], pos: &mut usize) {
+    while *pos < b.len() && (b[*pos] as char).is_ascii_whitespace() {
+        *pos += 1;
+    }
+}
+
+fn parse_value(b: &[u8], pos: &mut usize) -> Result<J, String> {
+    skip_ws(b, pos);
+    match b.get(*pos) {
+        None => Err("eof".into()),
+        Some(b'n') => lit(b, pos, "null", J::Null),
+        Some(b't') => lit(b, pos, "true", J::Bool(true)),
+        Some(b'f') => lit(b, pos, "false", J::Bool(false)),
+        Some(b'"') => Ok(J::Str(parse_string(b, pos)?)),
+        Some(b'[') => {
+            *pos += 1;
+            let mut items = Vec::new();
+            loop {
+                skip_ws(b, pos);
+                if b.get(*pos) == Some(&b']') {
+                    *pos += 1;
+                    return Ok(J::Arr(items));
+                }
+                items.push(parse_value(b, pos)?);
+                skip_ws(b, pos);
+                match b.get(*pos) {
+                    Some(b',') => *pos += 1,
+                    Some(b']') => {}
+                    _ => return Err(format!("expected , or ] at {}", *pos)),
+                }
+            }
+        }
+        Some(b'{') => {
+            *pos += 1;
+            let mut items = Vec::new();
+            loop {
+                skip_ws(b, pos);
+                if b.get(*pos) == Some(&b'}') {
+                    *pos += 1;
+                    return Ok(J::Obj(items));
+                }
+                let k = parse_string(b, pos)?;
+                skip_ws(b, pos);
+                if b.get(*pos) != Some(&b':') {
+                    return Err(format!("expected : at {}", *pos));
+                }
+                *pos += 1;
+                let v = parse_value(b, pos)?;
+                items.push((k, v));
+                skip_ws(b, pos);
+                match b.get(*pos) {
+                    Some(b',') => *pos += 1,
+                    Some(b'}') => {}
+                    _ => return Err(format!("expected , or }} at {}", *pos)),
+                }
+            }
+        }
+        Some(_) => {
+            let start = *pos;
+            while *pos < b.len() && matches!(b[*pos], b'-' | b'+' | b'.' | b'e' | b'E' | b'0'..=b'9') {
+                *pos += 1;
+            }
+            let s = std::str::from_utf8(&b[start..*pos]).map_err(|_| "utf8")?;
+            if let Ok(i) = s.parse::<i64>() {
+                Ok(J::Int(i))
+            } else {
+                s.parse::<f64>().map(J::Num).map_err(|_| format!("bad number {s:?}"))
+            }
+        }
+    }
+}
+
+fn lit(b: &[u8], pos: &mut usize, word: &str, v: J) -> Result<J, String> {
+    if b[*pos..].starts_with(word.as_bytes()) {
+        *pos += word.len();
+        Ok(v)
+    } else {
+        Err(format!("bad literal at {}", *pos))
+    }
+}
+
+fn parse_string(b: &[u8], pos: &mut usize) -> Result<String, String> {
+    if b.get(*pos) != Some(&b'"') {
+        return Err(format!("expected string at {}", *pos));
+    }
+    *pos += 1;
+    let mut out = Vec::new();
+    loop {
+        match b.get(*pos) {
+            None => return Err("eof in string".into()),
+            Some(b'"') => {
+                *pos += 1;
+                return String::from_utf8(out).map_err(|_| "utf8".into());
+            }
+            Some(b'\\') => {
+                *pos += 1;
+                match b.get(*pos) {
+                    Some(b'n') => out.push(b'\n'),
+                    Some(b'r') => out.push(b'\r'),
+                    Some(b't') => out.push(b'\t'),
+                    Some(b'b') => out.push(8),
+                    Some(b'f') => out.push(12),
+                    Some(b'u') => {
+                        let h = std::str::from_utf8(b.get(*pos + 1..*pos + 5).ok_or("eof")?)
+                            .map_err(|_| "utf8")?;
+                        let c = u32::from_str_radix(h, 16).map_err(|_| "bad \\u")?;
+                        let ch = char::from_u32(c).unwrap_or('\u{fffd}');
+                        let mut buf = [0u8; 4];
+                        out.extend_from_slice(ch.encode_utf8(&mut buf).as_bytes());
+                        *pos += 4;
+                    }
+                    Some(c) => out.push(*c),
+                    None => return Err("eof".into()),
+                }
+                *pos += 1;
+            }
+            Some(c) => {
+                out.push(*c);
+                *pos += 1;
+            }
+        }
+    }
+}
+
+impl J {
+    pub fn as_str(&self) -> Option<&str> {
+        match self {
+            J::Str(s) => Some(s),
+            _ => None,
+        }
+    }
+    pub fn as_arr(&self) -> Option<&[J]> {
+        match self {
+            J::Arr(a) => Some(a),
+            _ => None,
+        }
+    }
+    pub fn as_obj(&self) -> Option<&[(String, J)]> {
+        match self {
+            J::Obj(o) => Some(o),
+            _ => None,
+        }
+    }
+}
